@@ -135,6 +135,10 @@ def jobs(tier):
                           dict(o, pin={'max_in_flight': cap, 'orphan_threshold': thr})))
             js.append(Job('preempt-c%d-t%d' % (cap, thr), 'h_history', dict(steps=steps - 1, preempt=True),
                           dict(o, pin={'max_in_flight': cap, 'orphan_threshold': thr})))
+    if th:
+        # general pre-emption (thorough): any other-thread event at any lock acquire/release while no lock is held
+        js.append(Job('any-race', 'h_history', dict(steps=4, race='any'),
+                      dict(o, pin={'max_in_flight': 0, 'orphan_threshold': 0}, max_paths=400000)))
     # one pre-emption by a thread calling shutdown() at a lock acquire/release inside HostConnection._replace
     js.append(Job('replace-shutdown-race', 'h_history', dict(steps=steps - 1, race='replace-shutdown'),
                   dict(o, pin={'max_in_flight': 0, 'orphan_threshold': 0})))
